@@ -448,7 +448,11 @@ impl BuiltInFunction {
                     format!("top vector index `{top}` could not be used to index (usize)")
                 })?;
 
-                Ok((Some(Primitive::Str(s[bottom..top].to_owned())), None))
+                let substring = s.get(bottom..top).with_context(|| {
+                    format!("substring range {bottom}..{top} is out of bounds or not on a character boundary (len = {} bytes)", s.len())
+                })?;
+
+                Ok((Some(Primitive::Str(substring.to_owned())), None))
             }
             Self::StrContains => {
                 let Some(Primitive::Str(s)) = arguments.first() else {
@@ -520,14 +524,15 @@ impl BuiltInFunction {
 
                 let mut result = original.clone();
 
-                result.insert_str(
-                    (*bottom).try_into().with_context(|| {
-                        format!(
-                            "string insertion index `{bottom}` could not be used to index (usize)"
-                        )
-                    })?,
-                    new,
-                );
+                let index: usize = (*bottom).try_into().with_context(|| {
+                    format!("string insertion index `{bottom}` could not be used to index (usize)")
+                })?;
+
+                if !result.is_char_boundary(index) {
+                    bail!("string insertion index `{index}` is out of bounds or not on a character boundary (len = {} bytes)", result.len())
+                }
+
+                result.insert_str(index, new);
                 Ok((Some(Primitive::Str(result)), None))
             }
             Self::StrReplace => {
@@ -568,12 +573,18 @@ impl BuiltInFunction {
                     format!("string bottom index `{top}` could not be used to index (usize)")
                 })?;
 
-                let start = top - bottom + 1;
+                if bottom > top {
+                    bail!("string deletion range {bottom}..{top} is empty or reversed")
+                }
 
-                let mut result = String::with_capacity(s.len() - start);
+                let (Some(head), Some(tail)) = (s.get(..bottom), s.get(top..)) else {
+                    bail!("string deletion range {bottom}..{top} is out of bounds or not on a character boundary (len = {} bytes)", s.len())
+                };
 
-                result.push_str(&s[..bottom]);
-                result.push_str(&s[top..]);
+                let mut result = String::with_capacity(head.len() + tail.len());
+
+                result.push_str(head);
+                result.push_str(tail);
 
                 Ok((Some(Primitive::Str(result)), None))
             }
@@ -756,11 +767,15 @@ impl BuiltInFunction {
                     ));
                 }
 
-                let (lhs, rhs) = s.split_at(
-                    (*mid)
-                        .try_into()
-                        .with_context(|| format!("`{mid}` is an invalid index (usize)"))?,
-                );
+                let mid: usize = (*mid)
+                    .try_into()
+                    .with_context(|| format!("`{mid}` is an invalid index (usize)"))?;
+
+                if !s.is_char_boundary(mid) {
+                    bail!("split index `{mid}` is not on a character boundary")
+                }
+
+                let (lhs, rhs) = s.split_at(mid);
 
                 Ok((
                     Some(vector![
